@@ -71,6 +71,11 @@ func runC06(c *Ctx) {
 
 	c06DeprecatedCategories(c, t)
 	c06SelectorsIndependent(c)
+	if q := p.Pkg("private/bufpkg/bufcheck"); q != nil {
+		c06DirectiveAnchored(c, q)
+		c06DuplicatesCheckedTogether(c, q)
+		ruleSharedAppend(c, "SHARED-APPEND", []*packages.Package{q})
+	}
 	{
 		var tp []*packages.Package
 		for _, rel := range []string{"private/bufpkg/bufcheck", pkgCheckUtil, "private/bufpkg/bufconfig"} {
